@@ -136,20 +136,24 @@ func (m Money) abs(v *big.Int) (int64, bool) {
 	return k, true
 }
 
-// Clock is model time: whole seconds since the start of the run.
+// tick is the unit of model time: one second, unless the script asks for a finer one (tick_ms), in which
+// case the trace is validated with the time constants of the specification scaled accordingly.
+var tick = time.Second
+
+// Clock is model time: whole ticks (seconds) since the start of the run.
 type Clock struct {
 	epoch time.Time
 }
 
 func (c Clock) now() int64 {
-	return int64(time.Since(c.epoch) / time.Second)
+	return int64(time.Since(c.epoch) / tick)
 }
 
 func (c Clock) secs(t time.Time) int64 {
 	if t.IsZero() {
 		return -1
 	}
-	return int64(t.Sub(c.epoch) / time.Second)
+	return int64(t.Sub(c.epoch) / tick)
 }
 
 // nonce abstraction: model value v = s*1000 + k  <->  epoch + s seconds + k ns
@@ -160,7 +164,7 @@ func (c Clock) nonceReal(v int64) int64 {
 		s--
 		k += 1000
 	}
-	return c.epoch.UnixNano() + s*int64(time.Second) + k
+	return c.epoch.UnixNano() + s*int64(tick) + k
 }
 
 // Trace is the ndjson writer.
